@@ -467,7 +467,7 @@ func jsonControlBound(c *Ctx) {
 // (or the reverse) silently moves the persisted-query extension out of the extension's reach: a wrong hash is not rejected
 // and nothing is registered.
 func getParamFields(c *Ctx) {
-	c.R.Rule("get-param-fields", "GET.Do: the value of URL parameter P (query, operationName, variables, extensions) is stored / decoded into RawParams.P and nowhere else", 2)
+	c.R.Rule("get-param-fields", "GET.Do: the value of URL parameter P (exactly `query`, `operationName`, `variables`, `extensions`: URL parameter names are case-sensitive) is stored / decoded into the RawParams member of that name and nowhere else", 2)
 	fn := c.fn(pkgTransport, "GET.Do")
 	if fn == nil {
 		return
@@ -537,7 +537,7 @@ func getParamFields(c *Ctx) {
 			n++
 			bad := ""
 			for _, fld := range fields {
-				if !strings.EqualFold(fld, key) {
+				if lowerFirst(fld) != key {
 					bad = "URL parameter `" + key + "` ends up in RawParams." + fld
 				}
 			}
@@ -562,7 +562,7 @@ func getParamFields(c *Ctx) {
 				continue
 			}
 			n++
-			c.R.Check(strings.EqualFold(key, fld), "GET.Do/param:"+key, c.ipos(call), "handed to "+call.Common().StaticCallee().Name()+" together with &RawParams."+fld, "URL parameter `"+key+"` is decoded into RawParams."+fld+": the request the executor and the extensions see is not the one the client sent")
+			c.R.Check(lowerFirst(fld) == key, "GET.Do/param:"+key, c.ipos(call), "handed to "+call.Common().StaticCallee().Name()+" together with &RawParams."+fld, "URL parameter `"+key+"` is decoded into RawParams."+fld+": the request the executor and the extensions see is not the one the client sent")
 		}
 	}
 	if n < 2 {
@@ -608,4 +608,12 @@ func apqVersionGate(c *Ctx) {
 	if n == 0 {
 		c.R.Bad("AutomaticPersistedQuery/version-refused", "graphql/handler/extension/apq.go", "no test of the extension's Version leads to a refusal")
 	}
+}
+
+// lowerFirst: the member name GraphQL-over-HTTP uses for a RawParams field (OperationName -> operationName).
+func lowerFirst(s string) string {
+	if s == "" {
+		return s
+	}
+	return strings.ToLower(s[:1]) + s[1:]
 }
